@@ -43,7 +43,8 @@ HELPERS = {
                             '_genotype_likelihoods', 'genotype_likelihoods', 'genotype_posteriors', 'posterior_allele_frequencies',
                             'alternate_dosage_posteriors']),
             (CM + 'prior', ['calculate_alphas', 'log_genotype_prior']),
-            (CM + 'utils', ['allelic_dosage'])],
+            (CM + 'utils', ['allelic_dosage']),
+            ('mchap.io.loci', ['LocusPrior.from_variant_record'])],        # the prior frequencies call-exact normalises over
     'C04': [(J, ['structural_change']),
             (AM + 'likelihood', ['log_likelihood', 'log_likelihood_structural_change']),
             (CM + 'likelihood', ['log_likelihood_alleles']),
@@ -51,12 +52,15 @@ HELPERS = {
     'C05': [(J, ['ln_equivalent_permutations']),
             (AM + 'prior', ['log_genotype_null_prior', 'log_dirichlet_multinomial_pmf', 'log_genotype_prior']),
             (CM + 'prior', ['calculate_alphas', 'log_genotype_allele_prior', 'log_genotype_prior']),
-            (CM + 'utils', ['count_allele', 'allelic_dosage'])],
+            (CM + 'utils', ['count_allele', 'allelic_dosage']),
+            (AM + 'snpcalling', ['snp_posterior']),                        # the single-SNV use of the call prior
+            ('mchap.io.loci', ['LocusPrior.from_variant_record'])],        # frequencies handed to the priors are normalised
     'C06': [('mchap.io.bam', ['extract_read_variants', 'encode_read_alleles', 'encode_read_distributions', 'extract_sample_ids']),
             ('mchap.encoding.character.transcode', ['as_allelic']),
             ('mchap.encoding.integer.transcode', ['as_probabilistic']),
             ('mchap.io.util', ['qual_of_char', 'prob_of_qual']),
             (BC, ['program.encode_sample_reads']),
+            ('mchap.application.arguments', ['parse_sample_pools']),       # which alignments make up a pool
             MSET_COUNT,
             ('mchap.io.loci', ['Locus.validate_reference_alleles', 'Locus.set_sequence', 'Locus.set_variants', 'Locus.alleles',
                                'Locus.count_alleles', 'Locus.positions'])],
@@ -84,6 +88,7 @@ HELPERS = {
             (AM + 'mcmc', ['_denovo_assembler']),
             (AM + 'tempering', ['chain_swap_step'])],
     'C10': [('mchap.application.arguments', ['parse_sample_pools', 'parse_sample_bam_paths']),
+            ('mchap.application.assemble', ['_genotype_as_alleles', '_genotype_posterior_as_array']),     # labelling against the population list
             MSET_COUNT],
     'C11': [(J, ['_greatest_common_denominatior', '_comb', 'comb', '_comb_with_replacement', 'comb_with_replacement',
                  'genotype_alleles_as_index', 'index_as_genotype_alleles', 'increment_genotype']),
